@@ -118,6 +118,44 @@ def check(ctx: Ctx) -> str:
                       f"{mod}.{q} invokes {recv}.call({arg0}) - the callee is looked up from the render context, which a template can rebind (`{{% set gettext = obj.unsafe_method %}}`): the call bypasses SandboxedEnvironment.is_safe_callable",
                       f"{m.rel}:{c.lineno}", detail={"site": f"{mod}:{q}", "callee": arg0})
     ctx.floor("Context.call sites in library code", n, 5)
+    ctx.rule("R5", "compile-time folding never invokes a template-written callee: in every nodes.*.as_const no call has a callee computed from a folded child (`x.as_const(...)`) - such a call would run while compiling, outside environment.call / is_safe_callable")
+    nf = 0
+    for ci in repo.classes("nodes"):
+        fn = ci.methods.get("as_const")
+        if fn is None:
+            continue
+        nf += 1
+        folded: set[str] = set()
+        changed = True
+        while changed:
+            changed = False
+            for a in ast.walk(fn):
+                if isinstance(a, (ast.Assign, ast.AnnAssign)) and a.value is not None:
+                    src = a.value
+                    hit = any((isinstance(x, ast.Attribute) and x.attr == "as_const") or (isinstance(x, ast.Name) and x.id in folded) for x in ast.walk(src))
+                    if hit:
+                        tg = a.targets if isinstance(a, ast.Assign) else [a.target]
+                        for t_ in tg:
+                            for x in ast.walk(t_):
+                                if isinstance(x, ast.Name) and x.id not in folded:
+                                    folded.add(x.id)
+                                    changed = True
+        bad = []
+        for c in astq.calls(fn):
+            f_ = c.func
+            root = f_
+            while isinstance(root, (ast.Attribute, ast.Subscript)):
+                root = root.value
+            if isinstance(f_, ast.Attribute) and f_.attr == "as_const":
+                continue
+            if (isinstance(root, ast.Name) and root.id in folded) or (isinstance(root, ast.Call) and isinstance(root.func, ast.Attribute) and root.func.attr == "as_const"):
+                bad.append(c)
+        ctx.check(not bad, f"{ci.name}:no-call", f"nodes:{ci.name}.as_const", "call of a folded value" if bad else "no call of a folded value",
+                  f"{ci.name}.as_const calls `{ast.unparse(bad[0].func) if bad else ''}`, a value obtained by folding a child of the node: the callee is written in the template (`{{{{ obj.method() }}}}` with constant receiver) and runs at compile time without SandboxedEnvironment.call - is_safe_callable never sees it",
+                  f"{ci.module.rel}:{(bad[0] if bad else fn).lineno}")
+    ctx.floor("nodes.*.as_const definitions", nf, 15)
+    call_fold = repo.resolve_method(repo.cls("nodes:Call"), "as_const")
+    ctx.check(call_fold is not None, "Call:as_const-resolves", "nodes:Call", "as_const", "nodes.Call must inherit an as_const", repo.cls("nodes:Call").loc())
     from ..emitrules import c18_skeleton_rules
 
     c18_skeleton_rules(ctx)
